@@ -504,4 +504,34 @@ PROPS["C16"] = dict(
            dict(engine="e1", harness="c16_pstl_sched", weight=2)],
 )
 
+PROPS["C09"] = dict(
+    level="model_checking",
+    rule="concurrent half (c09_concurrent, gsched): 2-3 real threads on the "
+         "shared allocator paths -- FixedSizeHeap allocate / deallocate with "
+         "every block freed on a DIFFERENT thread than it was allocated on, "
+         "page pool alloc / free across threads and sockets, "
+         "SizedHeapFactory::getHeapForSize lookups for equal and different "
+         "sizes, PerBackend::allocOffset / deallocOffset racing on nextLoc -- "
+         "all schedules with <= d deviations (d=1-3 quick, 2-5 thorough). "
+         "Oracle: an engine-invisible registry of live blocks with per-block "
+         "canaries: every returned block is aligned, disjoint from every "
+         "live block, canaries intact at every free and at the end; one heap "
+         "per size; live per-thread-storage offsets disjoint; non-trivial = "
+         "distinct trace hash among executions with >= 1 deviation",
+    bound_note="per-cell bound_completed in coverage.cells",
+    assumptions=E1_ASSUME,
+    deadline=dict(quick=200, thorough=2400),
+    technique="stateless model checking of the implementation: exhaustive "
+              "deviation-bounded schedule enumeration (gsched) of the shared "
+              "allocator paths",
+    level_text="every schedule with <= d deviations of concurrent "
+               "allocate/free (incl. cross-thread free) on the real heaps, "
+               "page pool and per-thread-storage backend",
+    level_note="bounded: <=3 threads, <=4 blocks per thread; sequential "
+               "histories (size classes, bump heaps, per-iteration heap, "
+               "LargeArray) are the seqx part",
+    design_ref="DESIGN.md 2, 3, 7/C09",
+    parts=[dict(engine="e1", harness="c09_concurrent")],
+)
+
 NOT_APPLICABLE = {}
